@@ -1,11 +1,24 @@
-"""Matchers for the findings listed in /verif/known_findings.json.
+"""Matchers for the findings listed in /verif/known_findings.json and /verif/known/*.json.
 
 A matcher receives (family name, case, verdict) and says whether this failing case
 is the listed finding.  Anything no matcher accepts is reported as a violation.
+Matchers live in harness/matchers/<property>.py and register with @matcher.
 """
+import importlib
+import pkgutil
+
 MATCHERS = {}
 
 
 def matcher(fn):
     MATCHERS[fn.__name__] = fn
     return fn
+
+
+def _load():
+    import harness.matchers as M
+    for m in pkgutil.iter_modules(M.__path__):
+        importlib.import_module(f"harness.matchers.{m.name}")
+
+
+_load()
